@@ -1,6 +1,8 @@
 package alloc
 
 import (
+	"math/big"
+	"net"
 	"testing"
 
 	"verif/harness/core"
@@ -11,3 +13,24 @@ func TestC05(t *testing.T) { core.Run(t, "C05", GenCase("C05"), Exec) }
 func TestC06(t *testing.T) { core.Run(t, "C06", GenCase("C06"), Exec) }
 func TestC07(t *testing.T) { core.Run(t, "C07", GenCase("C07"), Exec) }
 func TestC20(t *testing.T) { core.Run(t, "C20", GenCalc, ExecCalc) }
+
+func FuzzIPCalc(f *testing.F) {
+	f.Add([]byte{0x20, 0x01, 0x0d, 0xb8, 0, 0, 0, 0, 0, 0, 0, 0, 0, 0, 0, 0}, []byte{0, 0, 0, 0, 0, 0, 0, 0, 0, 0, 0, 0, 0, 0, 1, 0}, uint8(64), uint64(256))
+	f.Add([]byte{0xff, 0xff, 0xff, 0xff, 0xff, 0xff, 0xff, 0xff, 0, 0, 0, 0, 0, 0, 0, 0}, []byte{0, 0, 0, 0, 0, 0, 0, 0, 0xff, 0xff, 0xff, 0xff, 0xff, 0xff, 0xff, 0xff}, uint8(65), uint64(1)<<63)
+	f.Add(make([]byte, 16), make([]byte, 16), uint8(8), uint64(256))
+	f.Fuzz(func(t *testing.T, base, delta []byte, p uint8, n uint64) {
+		if len(base) != 16 || len(delta) != 16 || p > 128 {
+			return
+		}
+		b := maskTo(append([]byte(nil), base...), int(p))
+		B := bigOf(b)
+		X := new(big.Int).Add(B, bigOf(delta))
+		if X.Cmp(two128) >= 0 {
+			X.Sub(two128, big.NewInt(1))
+		}
+		c := CalcCase{Base: net.IP(b).String(), X: ipOf(X).String(), P: int(p), N: n}
+		if r := ExecCalc(c); r.Viol != nil {
+			t.Fatalf("VIOLATION-DETAIL property=C20 signature=%s: %s", r.Viol.Signature, r.Viol.Message)
+		}
+	})
+}
